@@ -16,6 +16,7 @@ import (
 	"github.com/feichai0017/NoKV/manifest"
 	"github.com/feichai0017/NoKV/pb"
 	myraft "github.com/feichai0017/NoKV/raft"
+	"github.com/feichai0017/NoKV/raftstore/failpoints"
 	"github.com/feichai0017/NoKV/raftstore/peer"
 	"github.com/feichai0017/NoKV/raftstore/store"
 	"github.com/feichai0017/NoKV/wal"
@@ -85,6 +86,9 @@ type node struct {
 	sm  *regSM // survives restarts, like the DB behind the real applier
 	up  bool
 	inc *incarn
+	// the process is dying after a storage fault: nothing reaches it any more,
+	// what it already sent is still in the network
+	unreachable bool
 }
 
 // incarn is one process lifetime of a store. A restart stands for a process
@@ -120,6 +124,8 @@ type cluster struct {
 	ops           []*opState
 	stats         map[string]int
 	readsInFlight atomic.Int32
+	maxMsg        uint64 // raft MaxSizePerMsg (= MaxCommittedSizePerReady): small values page the committed backlog
+	inline        bool   // zero-latency network: Send steps the receiver at once (replies can arrive between two Readys of the sender)
 }
 
 type netT struct{ c *cluster }
@@ -133,15 +139,51 @@ func (n netT) Send(m myraft.Message) {
 	if cp.Unmarshal(b) != nil {
 		return
 	}
-	n.c.mu.Lock()
-	n.c.queue = append(n.c.queue, cp)
-	n.c.mu.Unlock()
+	c := n.c
+	c.mu.Lock()
+	if c.inline && !c.closed {
+		from, to := storeOfPeer(cp.From), storeOfPeer(cp.To)
+		ok := from >= 1 && from <= 3 && to >= 1 && to <= 3 && !c.cut[from] && !c.cut[to]
+		c.mu.Unlock()
+		if ok {
+			c.step(c.nodes[to], cp)
+		}
+		return
+	}
+	c.queue = append(c.queue, cp)
+	c.mu.Unlock()
+}
+
+// guard runs a driver action on a node; a panic of the raft library (it
+// panics when asked to overwrite a committed entry) takes the node down
+// instead of the harness.
+func (c *cluster) guard(n *node, f func()) {
+	defer func() {
+		if r := recover(); r != nil {
+			n.up = false
+			c.mu.Lock()
+			c.stats["raft_panics"]++
+			n.inc.dead = true
+			c.mu.Unlock()
+		}
+	}()
+	f()
+}
+
+func (c *cluster) step(n *node, m myraft.Message) {
+	if n == nil || !n.up || (n.unreachable && failpoints.Current() == failpoints.None) {
+		return
+	}
+	c.guard(n, func() { _ = n.st.Step(m) })
 }
 
 var quietLogger = &myraft.DefaultLogger{Logger: log.New(io.Discard, "", 0)}
 
-func newCluster(dir string, nregions int) (*cluster, error) {
-	c := &cluster{dir: dir, stats: map[string]int{}}
+func newCluster(dir string, nregions int, maxMsg uint64) (*cluster, error) {
+	if maxMsg == 0 {
+		maxMsg = 1 << 20
+	}
+	c := &cluster{dir: dir, stats: map[string]int{}, maxMsg: maxMsg}
 	for r := 1; r <= nregions; r++ {
 		c.regions = append(c.regions, uint64(r))
 	}
@@ -194,7 +236,7 @@ func (n *node) start() error {
 	for _, region := range c.regions {
 		meta := c.regionMeta(region)
 		cfg := &peer.Config{
-			RaftConfig: myraft.Config{ID: peerID(region, n.id), ElectionTick: 10, HeartbeatTick: 1, MaxSizePerMsg: 1 << 20,
+			RaftConfig: myraft.Config{ID: peerID(region, n.id), ElectionTick: 10, HeartbeatTick: 1, MaxSizePerMsg: c.maxMsg,
 				MaxInflightMsgs: 256, PreVote: true, Logger: quietLogger},
 			Transport: netT{c},
 			WAL:       w,
@@ -211,6 +253,12 @@ func (n *node) start() error {
 		c.mu.Unlock()
 	}
 	n.up = true
+	// hand out what the log already holds (a restarted node ignores Campaign
+	// while conf changes of its log are unapplied)
+	for _, region := range c.regions {
+		p := in.peers[region]
+		c.guard(n, func() { _ = p.Flush() })
+	}
 	return nil
 }
 
@@ -449,11 +497,46 @@ func (c *cluster) deliverAt(i int, keep bool) {
 	if dropped {
 		return
 	}
-	n := c.nodes[to]
-	if n == nil || !n.up {
-		return
+	c.step(c.nodes[to], m)
+}
+
+// deliverFaulty delivers the i-th queued message while the store's raft
+// storage refuses writes (the tree's failpoint "before storage": persisting
+// the Ready fails), after which the store process dies and restarts from its
+// directory. The failpoint is process-wide: only used by runs that execute
+// alone.
+func (c *cluster) deliverFaulty(i int) error {
+	c.mu.Lock()
+	if i >= len(c.queue) {
+		c.mu.Unlock()
+		return nil
 	}
-	_ = n.st.Step(m)
+	m := c.queue[i]
+	c.queue = append(c.queue[:i:i], c.queue[i+1:]...)
+	from, to := storeOfPeer(m.From), storeOfPeer(m.To)
+	dropped := from > 3 || to > 3 || to == 0 || c.cut[from] || c.cut[to]
+	c.mu.Unlock()
+	n := c.nodes[to]
+	if dropped || n == nil || !n.up {
+		return nil
+	}
+	failpoints.Set(failpoints.BeforeStorage)
+	c.step(n, m)
+	failpoints.Set(failpoints.None)
+	c.stats["storage_faults"]++
+	return c.restart(n)
+}
+
+func (c *cluster) tick(n *node, region uint64) {
+	if n.up {
+		c.guard(n, func() { _ = n.peer(region).Tick() })
+	}
+}
+
+func (c *cluster) campaign(n *node, region uint64) {
+	if n.up {
+		c.guard(n, func() { _ = n.peer(region).Campaign() })
+	}
 }
 
 func (c *cluster) qlen() int {
@@ -488,12 +571,16 @@ func (c *cluster) pumpRegion(region uint64, max int) {
 }
 
 func (c *cluster) restart(n *node) error {
+	if !n.up {
+		return nil // taken down by a raft panic: stays down
+	}
 	n.up = false
 	c.mu.Lock()
 	n.inc.dead = true
 	c.log(&event{kind: "start", s: n.id})
 	c.mu.Unlock()
 	n.stop()
+	n.unreachable = false
 	return n.start()
 }
 
@@ -531,7 +618,7 @@ func (c *cluster) finish() []*event {
 		for id := 1; id <= 3; id++ {
 			if c.nodes[id].up {
 				for _, region := range c.regions {
-					_ = c.nodes[id].peer(region).Tick()
+					c.tick(c.nodes[id], region)
 				}
 			}
 		}
@@ -542,7 +629,7 @@ func (c *cluster) finish() []*event {
 		if round%8 == 7 {
 			for _, region := range c.regions {
 				if len(c.leaderClaims(region)) == 0 {
-					_ = c.nodes[1+round%3].peer(region).Campaign()
+					c.campaign(c.nodes[1+round%3], region)
 				}
 			}
 		}
@@ -572,6 +659,8 @@ type runSpec struct {
 	Steps   int    `json:"steps"`
 	Profile string `json:"profile"` // mixed | reads | f20 | newleader | tworegions
 	Regions int    `json:"regions,omitempty"`
+	MaxMsg  uint64 `json:"max_msg,omitempty"` // raft MaxSizePerMsg; 0 = 1 MiB
+	Faults  bool   `json:"faults,omitempty"`  // storage faults (process-wide failpoint): the run executes alone
 }
 
 // newCmd makes a command for a region: with two regions, region r owns the keys 2(r-1), 2(r-1)+1.
@@ -594,7 +683,11 @@ func runOne(spec runSpec, dir string) ([]*event, map[string]int, error) {
 	if spec.Profile == "tworegions" {
 		nregions = 2
 	}
-	c, err := newCluster(dir, nregions)
+	maxMsg := spec.MaxMsg
+	if spec.Profile == "backlog" {
+		maxMsg = 150
+	}
+	c, err := newCluster(dir, nregions, maxMsg)
 	if err != nil {
 		return nil, nil, err
 	}
@@ -609,11 +702,19 @@ func runOne(spec runSpec, dir string) ([]*event, map[string]int, error) {
 	case "tworegions":
 		c.scriptTwoRegions()
 		return c.finish(), c.stats, nil
+	case "storagefault":
+		if err := c.scriptStorageFault(); err != nil {
+			return nil, nil, err
+		}
+		return c.finish(), c.stats, nil
+	case "backlog":
+		c.scriptBacklogRead()
+		return c.finish(), c.stats, nil
 	}
 	pickRegion := func() uint64 { return c.regions[rng.Intn(len(c.regions))] }
 	for _, region := range c.regions {
 		// with two regions, prefer different leaders and equal term numbers
-		_ = c.nodes[1+(rng.Intn(3)+int(region))%3].peer(region).Campaign()
+		c.campaign(c.nodes[1+(rng.Intn(3)+int(region))%3], region)
 		c.pump(200)
 	}
 	maxOps := 9
@@ -635,6 +736,11 @@ func runOne(spec runSpec, dir string) ([]*event, map[string]int, error) {
 					}
 				}
 				switch f := rng.Intn(100); {
+				case spec.Faults && f >= 94 && restarts < 3:
+					restarts++
+					if err := c.deliverFaulty(i); err != nil {
+						return nil, nil, err
+					}
 				case f < 6:
 					c.stats["duplicated"]++
 					c.deliverAt(i, true)
@@ -652,9 +758,7 @@ func runOne(spec runSpec, dir string) ([]*event, map[string]int, error) {
 		case r < 52:
 			c.pump(1 + rng.Intn(8))
 		case r < 64:
-			if n := c.nodes[1+rng.Intn(3)]; n.up {
-				_ = n.peer(pickRegion()).Tick()
-			}
+			c.tick(c.nodes[1+rng.Intn(3)], pickRegion())
 		case r < 82:
 			if int(c.nextW) >= maxOps {
 				continue
@@ -683,10 +787,8 @@ func runOne(spec runSpec, dir string) ([]*event, map[string]int, error) {
 				c.call(n, region, c.newCmd(rng, region, "put"), false)
 			}
 		case r < 87:
-			if n := c.nodes[1+rng.Intn(3)]; n.up {
-				c.stats["campaigns"]++
-				_ = n.peer(pickRegion()).Campaign()
-			}
+			c.stats["campaigns"]++
+			c.campaign(c.nodes[1+rng.Intn(3)], pickRegion())
 		case r < 92:
 			c.mu.Lock()
 			if rng.Intn(2) == 0 {
@@ -766,6 +868,166 @@ func (c *cluster) scriptTwoRegions() {
 	c.pump(1000)
 	c.call(c.nodes[1], 1, c.newCmd(rng, 1, "get"), true)
 	c.pump(500)
+}
+
+// scriptStorageFault: follower 2's storage fails while it handles the Ready
+// that carries a new entry (store 3 is unreachable); the process of store 2
+// then dies and restarts from disk; afterwards the old leader 1 is cut off
+// and 2 leads with 3. Nothing that was not durable on 2 may have been
+// acknowledged by 2: otherwise leader 1 commits, applies and acknowledges a
+// command that only it holds, and the new majority applies something else at
+// that index.
+func (c *cluster) scriptStorageFault() error {
+	rng := rand.New(rand.NewSource(1))
+	c.campaign(c.nodes[1], 1)
+	c.pump(500)
+	c.call(c.nodes[1], 1, c.newCmd(rng, 1, "put"), false)
+	c.pump(500)
+	c.tick(c.nodes[1], 1)
+	c.pump(500)
+	c.mu.Lock()
+	c.cut[3] = true
+	c.mu.Unlock()
+	c.call(c.nodes[1], 1, c.newCmd(rng, 1, "put"), false)
+	for k := 0; k < 50; k++ {
+		c.mu.Lock()
+		idx := -1
+		for i, m := range c.queue {
+			if m.To == peerID(1, 2) && m.Type == myraft.MsgAppend && len(m.Entries) > 0 {
+				idx = i
+				break
+			}
+		}
+		c.mu.Unlock()
+		if idx >= 0 {
+			// what store 2 sent before it died stays in the network
+			if err := c.deliverFaultyKeepDown(idx); err != nil {
+				return err
+			}
+			break
+		}
+		if c.qlen() == 0 {
+			break
+		}
+		c.deliverAt(0, false)
+	}
+	c.pump(500)
+	if err := c.restart(c.nodes[2]); err != nil {
+		return err
+	}
+	c.mu.Lock()
+	c.queue = nil
+	c.cut = [4]bool{}
+	c.cut[1] = true
+	c.mu.Unlock()
+	c.campaign(c.nodes[2], 1)
+	for i := 0; i < 500 && c.qlen() > 0; i++ {
+		c.deliverAt(0, false)
+	}
+	if os.Getenv("VERIF_CLUSTER_DEBUG") != "" {
+		fmt.Fprintf(os.Stderr, "store 2 after campaign: %+v\nstore 3: %+v\n", c.nodes[2].peer(1).Status().BasicStatus, c.nodes[3].peer(1).Status().BasicStatus)
+	}
+	c.call(c.nodes[2], 1, c.newCmd(rng, 1, "put"), false)
+	c.pump(500)
+	c.tick(c.nodes[2], 1)
+	c.pump(500)
+	return nil
+}
+
+// deliverFaultyKeepDown is deliverFaulty without the immediate restart: the
+// store stays unreachable (its process is dying) while what it already sent
+// travels on; the caller restarts it.
+func (c *cluster) deliverFaultyKeepDown(i int) error {
+	c.mu.Lock()
+	m := c.queue[i]
+	c.queue = append(c.queue[:i:i], c.queue[i+1:]...)
+	c.mu.Unlock()
+	n := c.nodes[storeOfPeer(m.To)]
+	failpoints.Set(failpoints.BeforeStorage)
+	c.step(n, m)
+	failpoints.Set(failpoints.None)
+	c.stats["storage_faults"]++
+	n.unreachable = true
+	return nil
+}
+
+// scriptBacklogRead: leader 1 commits, applies and acknowledges a batch of
+// writes whose commit index never reaches the followers; 1 is cut off, 2 is
+// elected and inherits the batch as a committed backlog that raft hands out
+// in pages (small MaxCommittedSizePerReady); a read is issued on 2 right
+// after the election. On a zero-latency network the heartbeat round that
+// confirms the read index completes between two pages, so the ReadState
+// arrives with a later page: ReadCommand must wait until that page has been
+// applied (WaitApplied), not merely begun.
+func (c *cluster) scriptBacklogRead() {
+	rng := rand.New(rand.NewSource(1))
+	c.campaign(c.nodes[1], 1)
+	c.pump(500)
+	c.tick(c.nodes[1], 1)
+	c.pump(500)
+	// two writes to k0 and a last one to k1, all in flight together: with the
+	// new leader's empty entry the backlog is four entries = two pages, and the
+	// read index (the empty entry) lies in the second page
+	for i := 0; i < 3; i++ {
+		w := c.newCmd(rng, 1, "put")
+		w.K = 0
+		if i == 2 {
+			w.K = 1
+		}
+		c.call(c.nodes[1], 1, w, false)
+	}
+	nops := len(c.ops)
+	for i := 0; i < 2000 && c.qlen() > 0; i++ {
+		// whatever would tell a follower the new commit index is lost
+		c.mu.Lock()
+		m := c.queue[0]
+		lose := storeOfPeer(m.From) == 1 && (m.Type == myraft.MsgHeartbeat || (m.Type == myraft.MsgAppend && len(m.Entries) == 0))
+		if lose {
+			c.queue = c.queue[1:]
+		}
+		c.mu.Unlock()
+		if lose {
+			continue
+		}
+		c.deliverAt(0, false)
+		done := 0
+		for _, op := range c.ops[:nops] {
+			select {
+			case <-op.done:
+				done++
+			default:
+			}
+		}
+		if done == nops {
+			break
+		}
+		runtime.Gosched()
+	}
+	for i := 0; i < 100 && c.pendingOps() > 0; i++ {
+		time.Sleep(100 * time.Microsecond)
+	}
+	c.mu.Lock()
+	c.queue = nil // the followers never hear that the batch is committed
+	c.cut[1] = true
+	c.mu.Unlock()
+	c.campaign(c.nodes[2], 1)
+	for i := 0; i < 500 && c.qlen() > 0 && c.nodes[2].peer(1).Status().RaftState != myraft.StateLeader; i++ {
+		c.deliverAt(0, false)
+	}
+	r := c.newCmd(rng, 1, "get")
+	r.K = 1
+	c.call(c.nodes[2], 1, r, true)
+	c.mu.Lock()
+	c.inline = true
+	c.mu.Unlock()
+	c.pump(2000)
+	for i := 0; i < 3; i++ {
+		c.tick(c.nodes[2], 1)
+		c.pump(2000)
+	}
+	c.mu.Lock()
+	c.inline = false
+	c.mu.Unlock()
 }
 
 // scriptNewLeaderRead: a write is acknowledged by leader 1 while follower 2 has
